@@ -65,6 +65,24 @@ def base_type(ct):
     return t
 
 
+def ptr_to(ct, cls):
+    return bool(re.match(r'^(const )?%s( const)? ?\*( ?const)?$' % re.escape(cls), (ct or '').strip()))
+
+
+def callers_outside(tus, q, allowed_recs):
+    """functions (in any parsed unit) outside the classes `allowed_recs` that call the function named q"""
+    out = []
+    for t in tus:
+        for f in t.functions.values():
+            if f['dep'] or f.get('rec') in allowed_recs or t.body(f) is None:
+                continue
+            for x in t.walk(t.body(f)):
+                if x.get('id') and t.sd(x).get('k') == 'call' and t.sd(x).get('q') == q:
+                    out.append(f['q'])
+                    break
+    return out
+
+
 def fn_name(f):
     return '%s %s' % (f['q'].replace(NS, ''), re.sub(r'\s*noexcept(\(\w+\))?', '', f['fty'].replace(NS, '')))
 
@@ -113,9 +131,13 @@ class ObsInterp(ObjInterp):
     def __init__(self, tu, fields):
         super().__init__(tu)
         self.F = fields
+        self.inlined = {}
 
     def is_own_fn(self, f):
-        return f.get('rec') == OBSR
+        if f.get('rec') == OBSR:
+            return True
+        # helper members of Observable called from Observer members (friend): followed with `this` bound to the observable
+        return f.get('rec') == OBSV and f['q'] not in (REG, UNREG) and not f.get('ctor') and not f.get('dtor')
 
     def und(self, msg):
         if msg not in self.undecided:
@@ -144,6 +166,8 @@ class ObsInterp(ObjInterp):
             return 'null' if not ks else (self.pval(ks[0], st, fr, depth + 1) if len(ks) == 1 else None)
         if k == 'CXXThisExpr':
             o = fr.env.get('this')
+            if o in OBJS:
+                return o
             return ('addr', o) if o else None
         if k == 'UnaryOperator' and e.get('opcode') == '&':
             o = self.obj_of(tu.kids(e)[0], fr)
@@ -186,23 +210,30 @@ class ObsInterp(ObjInterp):
         return o if o in OBJS else None
 
     def stamp_of(self, e, st, fr):
-        """('O', observer) for <observer>.lastObserved, ('N', observable) for <observable>.lastNotified (also through
-        the conversion to an integer)"""
+        """('O', observer, renewed-before-this-read) for <observer>.lastObserved, ('N', observable) for
+        <observable>.lastNotified; also through the conversion to an integer, a TimeStamp reference parameter bound by
+        a followed call, or an integer local initialised from one of these"""
         tu = self.tu
         e = tu.strip(e, casts=True)
         if e is None:
             return None
+        d = thaw(st)
         if e.get('kind') == 'CXXMemberCallExpr':
             sd, obj, args = tu.call_parts(e)
             if sd.get('rec') == TS and sd.get('q', '').split('::')[-1].startswith('operator ') and obj is not None:
                 return self.stamp_of(obj, st, fr)
             return None
+        if e.get('kind') == 'DeclRefExpr':
+            did = str(e.get('referencedDecl', {}).get('id'))
+            if fr.env.get('ts:' + did):
+                return fr.env['ts:' + did]
+            return d.get('s:' + did)
         if self.is_field(e, self.F.last_observed):
             o = self.base_obj(e, fr)
-            return ('O', o) if o else None
+            return ('O', o, bool(d.get('renewed:' + o))) if o and o not in OBJS else None
         if self.is_field(e, self.F.last_notified):
             ks = tu.kids(e)
-            x = self.observable_of(ks[0], st, fr) if ks else None
+            x = self.observable_of(ks[0], st, fr) if ks else fr.env.get('this')
             return ('N', x) if x else None
         return None
 
@@ -244,7 +275,7 @@ class ObsInterp(ObjInterp):
                     op = {'<': '>', '>': '<', '<=': '>=', '>=': '<=', '==': '==', '!=': '!='}[op]
                 if sa[0] != 'O' or sb[0] != 'N' or d.get(sa[1]) != sb[1] or sb[1] not in OBJS:
                     return None
-                older = bool(d.get('N')) and not d.get('renewed:' + sa[1])
+                older = bool(d.get('N')) and not sa[2]
                 # stamps are pairwise distinct (R-C19-3): < and <= coincide, == never holds
                 return {'<': older, '<=': older, '>': not older, '>=': not older, '==': False, '!=': True}[op]
             if e['opcode'] in ('==', '!='):
@@ -315,32 +346,92 @@ class ObsInterp(ObjInterp):
                 return self.inline(tu.strip(init), callee, me, st, fr)
         return [st]
 
-    def inline(self, n, callee, this_obj, st, fr):
+    def bind(self, n, callee, this_obj, st, fr, quiet=False):
+        """(env, state) for following callee at call node n, or None"""
         tu = self.tu
         s_, obj, args = tu.call_parts(n)
-        env = {'this': this_obj} if this_obj else {}
+        env = {}
+        d = thaw(st)
+        if callee.get('rec') == OBSV and not callee.get('static'):
+            x = self.observable_of(obj, st, fr) if obj is not None else fr.env.get('this')
+            if x not in OBJS:
+                if not quiet and x != 'null':
+                    self.und('call of %s on an observable the analysis cannot identify at %s' % (callee['q'], tu.loc(n)))
+                return None
+            env['this'] = x
+        elif callee.get('rec') == OBSR and not callee.get('static'):
+            o = this_obj if this_obj is not None else (self.obj_of(obj, fr) if obj is not None else fr.env.get('this'))
+            if o is None or o in OBJS:
+                if not quiet:
+                    self.und('call of %s on an object the analysis cannot identify at %s' % (callee['q'], tu.loc(n)))
+                return None
+            env['this'] = o
         for p, a in zip(callee.get('params', []), args):
             bt = base_type(p['ct'])
             if bt in (OBSR, OBSV):
                 o = self.obj_of(a, fr)
                 if o is None:
-                    self.und('argument of %s not understood at %s' % (callee['q'], tu.loc(n)))
-                    return [st]
+                    if not quiet:
+                        self.und('argument of %s not understood at %s' % (callee['q'], tu.loc(n)))
+                    return None
                 env[p['id']] = o
+            elif bt == TS:
+                sp = self.stamp_of(a, st, fr)
+                if sp is None:
+                    if not quiet:
+                        self.und('TimeStamp argument of %s not understood at %s' % (callee['q'], tu.loc(n)))
+                    return None
+                env['ts:' + str(p['id'])] = sp
+            elif ptr_to(p['ct'], OBSV):
+                v = self.pval(a, st, fr)
+                if v is None or isinstance(v, tuple):
+                    if not quiet:
+                        self.und('Observable* argument of %s not understood at %s' % (callee['q'], tu.loc(n)))
+                    return None
+                d['v:' + str(p['id'])] = v
+            elif (p['ct'] or '').replace('const ', '').strip() == 'bool':
+                d['b:' + str(p['id'])] = self.eval_bool(a, st, fr)
+        return env, freeze(d)
+
+    def inline(self, n, callee, this_obj, st, fr):
+        bound = self.bind(n, callee, this_obj, st, fr)
+        if bound is None:
+            return [st]
+        env, st1 = bound
+        self.inlined[callee['id']] = self.inlined.get(callee['id'], 0) + 1
         out = []
-        for s2, rv in self.run_fn(callee, env, st, fr, n, 1):
+        for s2, rv in self.run_fn(callee, env, st1, fr, n, 1):
             if s2 not in out:
                 out.append(s2)
         return out
+
+    def call_value(self, n, st, fr, depth=0):
+        callee = self.tu.callee_fn(n)
+        if callee is None or not self.is_own_fn(callee) or self.tu.cfg(callee) is None:
+            return None
+        bound = self.bind(n, callee, None, st, fr, quiet=True)
+        if bound is None:
+            return None
+        env, st1 = bound
+        saved = self._cur
+        self._cur = None
+        try:
+            outs = self.run_fn(callee, env, st1, fr, n, depth + 1)
+        finally:
+            self._cur = saved
+        return [rv for (_, rv) in outs]
 
     def on_node(self, n, st, fr):
         tu = self.tu
         k = n.get('kind')
         d = thaw(st)
+        if k == 'MemberExpr' and tu.sd(n).get('d') == self.F.observers['id']:
+            self.und('an interpreted member accesses the observer list directly at %s' % tu.loc(n))
+            return [st]
         if k == 'MemberExpr' and n.get('isArrow'):
             ks = tu.kids(n)
             b = tu.strip(ks[0], casts=True) if ks else None
-            if b is not None and base_type(tu.sd(b).get('ct')).rstrip(' *') == OBSV and is_ptr_ct(tu.sd(b).get('ct')):
+            if b is not None and ptr_to(tu.sd(b).get('ct'), OBSV) and b.get('kind') != 'CXXThisExpr':
                 v = self.pval(b, st, fr)
                 if v == 'null':
                     self.report('null-deref', 'member `%s` is accessed through an observee pointer that is null on this path '
@@ -365,8 +456,11 @@ class ObsInterp(ObjInterp):
                 if ct == 'bool':
                     d['b:' + did] = self.eval_bool(ks[1], st, fr)
                     return [freeze(d)]
-                if is_ptr_ct(ct) and base_type(ct).rstrip(' *') == OBSV:
+                if ptr_to(ct, OBSV):
                     d['v:' + did] = self.pval(ks[1], st, fr)
+                    return [freeze(d)]
+                if 's:' + did in d:
+                    d['s:' + did] = self.stamp_of(ks[1], st, fr)
                     return [freeze(d)]
             return [st]
         if k == 'DeclStmt':
@@ -378,8 +472,10 @@ class ObsInterp(ObjInterp):
                 ict = tu.sd(tu.strip(init)).get('ct') or ''
                 if vt.replace('const ', '').strip() == 'bool' or (ict == 'bool' and 'auto' in vt):
                     d['b:' + str(v['id'])] = self.eval_bool(init, st, fr)
-                elif is_ptr_ct(ict) and base_type(ict).rstrip(' *') == OBSV:
+                elif ptr_to(ict, OBSV) or ptr_to(tu.sd(tu.strip(init, casts=True)).get('ct'), OBSV):
                     d['v:' + str(v['id'])] = self.pval(init, st, fr)
+                elif self.stamp_of(init, st, fr) is not None and base_type(vt) != TS and '&' not in vt:
+                    d['s:' + str(v['id'])] = self.stamp_of(init, st, fr)      # integer snapshot of a stamp
                 else:
                     o = self.obj_of(init, fr)
                     if o is not None and '&' in vt:
@@ -420,11 +516,7 @@ class ObsInterp(ObjInterp):
                 return [st]
             callee = tu.callee_fn(n)
             if callee is not None and self.is_own_fn(callee) and tu.cfg(callee) is not None:
-                this_obj = self.obj_of(obj, fr) if obj is not None else None
-                if this_obj is None or this_obj in OBJS:
-                    self.und('call of %s on an object the analysis cannot identify at %s' % (q, tu.loc(n)))
-                    return [st]
-                return self.inline(n, callee, this_obj, st, fr)
+                return self.inline(n, callee, None, st, fr)
             for a in ([obj] if obj is not None else []) + list(args):
                 if self.obj_of(a, fr) is not None or self.pval(a, st, fr) in OBJS:
                     self.und('tracked observer/observable escapes into %s at %s' % (q or '?', tu.loc(n)))
@@ -487,10 +579,11 @@ def obs_scenarios(f, role):
     return res
 
 
-def check_observer(ctx, tu, F, analysed):
+def check_observer(ctx, tu, F, analysed, all_tus=()):
     R1, R2, R4 = 'R-C19-1', 'R-C19-2', 'R-C19-4'
     it = ObsInterp(tu, F)
     n1 = n2 = n4 = 0
+    helpers = []
     for f in sorted(tu.functions.values(), key=lambda x: (x['f'], x['l'])):
         if f['dep'] or f.get('rec') != OBSR or tu.cfg(f) is None or f.get('implicit'):
             continue
@@ -500,7 +593,12 @@ def check_observer(ctx, tu, F, analysed):
         tch = touched_fields(tu, f, F)
         if role is None:
             if tch & {'observee', 'lastObserved', 'observers', 'lastNotified'}:
-                ctx.undecided(R1, inst0, 'Observer member touches %s but has no known role' % sorted(tch), tu.fn_loc(f))
+                outside = callers_outside([tu] + list(all_tus), f['q'], {OBSR}) if f.get('access') == 'private' and not f.get('virt') else None
+                if outside == []:
+                    helpers.append((f, inst0))
+                else:
+                    ctx.undecided(R1, inst0, 'Observer member touches %s but has no known role%s' % (
+                        sorted(tch), '' if outside is None else ' and is called from outside Observer (%s)' % ', '.join(outside[:3])), tu.fn_loc(f))
             continue
         analysed.add(f['id'])
         rule = R2 if role == 'wasNotified' else R4 if role in ('copy-ctor', 'move-ctor', 'copy-assign', 'move-assign') else R1
@@ -595,6 +693,21 @@ def check_observer(ctx, tu, F, analysed):
             else:
                 ctx.ok(rule, inst, 'events %s; observee %s; registered with %s%s' % (list(d['$ev']), d.get('this'), list(d.get('r:this', ())),
                                                                                     '; returns %s' % rv if role == 'wasNotified' else ''), tu.fn_loc(f))
+    for f, inst0 in helpers:
+        k = it.inlined.get(f['id'], 0)
+        analysed.add(f['id'])
+        ctx.ok(R1, inst0, 'private helper called only from Observer members: its effects are interpreted at each of its %d call site(s), '
+               'with `this` and the arguments bound' % k, tu.fn_loc(f), nontrivial=k > 0)
+    # helper members of Observable that the interpreter followed from Observer members (e.g. a stamp comparison moved into Observable)
+    for fid, k in it.inlined.items():
+        f = tu.functions.get(fid)
+        if f is None or f.get('rec') != OBSV or fid in analysed:
+            continue
+        outside = callers_outside([tu] + list(all_tus), f['q'], {OBSR})
+        if f.get('access') == 'private' and not f.get('virt') and not outside:
+            analysed.add(fid)
+            ctx.ok(R1, fn_name(f), 'private helper of Observable called only from Observer members: interpreted at each of its %d call '
+                   'site(s) with `this` bound to the observee' % k, tu.fn_loc(f))
     return n1, n2, n4
 
 
@@ -1305,15 +1418,23 @@ def refs_global(t, f):
     return any(x.get('id') and t.sd(x).get('q') == GLOBAL for x in t.walk(t.body(f))) if t.body(f) is not None else False
 
 
-def value_ops(t, f, VALUE):
+def value_ops(t, f, VALUE, depth=0):
     """abstract final content of this->value on every path: 'fresh' (a nextValue() result), 'src' (the value of the
-    TimeStamp argument), 'old' (unchanged), 'other'.  Returns (finals, others, undecided)"""
+    TimeStamp argument), 'old' (unchanged), ('param', i) (the i-th integral parameter, for helpers), 'other'.
+    Values pass through const/once-assigned locals; calls to other members of TimeStamp on *this (delegating
+    constructors, `*this = other`, private helpers) are followed with the arguments bound.
+    Returns (finals, others, undecided)"""
     g = t.cfg(f)
     und = []
+    if g is None:
+        return [], [], ['no body for %s' % f['q']]
     if g.back_edges():
         return [], [], ['loop in a TimeStamp member']
+    if depth > 6:
+        return [], [], ['call chain too deep in TimeStamp members']
     params = {p['id'] for p in f['params'] if base_type(p['ct']) == TS}
-    is_value = lambda sd: sd.get('q') == VALUE
+    iparams = {p['id']: i for i, p in enumerate(f['params']) if base_type(p['ct']) != TS}
+    fname = VALUE.split('::')[-1]
 
     def this_value(e):
         e = t.strip(e, casts=True)
@@ -1322,15 +1443,41 @@ def value_ops(t, f, VALUE):
         ks = t.kids(e)
         return not ks or t.is_this(ks[0])
 
-    def classify(e, depth=0):
+    def is_this_obj(e):
         e = t.strip(e, casts=True)
-        if e is None or depth > 8:
+        while e is not None and e.get('kind') == 'UnaryOperator' and e.get('opcode') == '*':
+            e = t.strip(t.kids(e)[0], casts=True)
+        return e is not None and e.get('kind') == 'CXXThisExpr'
+
+    def ts_arg(e):
+        """which TimeStamp object an argument designates: 'src' (the TimeStamp parameter), 'old' (*this), None"""
+        e = t.strip(e, casts=True)
+        if e is None:
+            return None
+        if e.get('kind') == 'CallExpr' and t.sd(e).get('q') in ('std::move', 'std::forward') and len(t.kids(e)) == 2:
+            return ts_arg(t.kids(e)[1])
+        if t.ref_decl(e) in params:
+            return 'src'
+        if is_this_obj(e):
+            return 'old'
+        return None
+
+    def classify(e, env, d=0):
+        e = t.strip(e, casts=True)
+        if e is None or d > 8:
             return 'other'
         k = e.get('kind')
         if k == 'CallExpr' and t.sd(e).get('q') == NEXT:
             return 'fresh'
+        if k == 'DeclRefExpr':
+            did = e.get('referencedDecl', {}).get('id')
+            if did in env:
+                return env[did]
+            if did in iparams:
+                return ('param', iparams[did])
+            return 'other'
         if k in ('CXXConstructExpr', 'InitListExpr', 'CXXFunctionalCastExpr') and len(t.kids(e)) == 1:
-            return classify(t.kids(e)[0], depth + 1)
+            return classify(t.kids(e)[0], env, d + 1)
         if k in CALLS:
             sd, obj, args = t.call_parts(e)
             name = sd.get('q', '').split('::')[-1]
@@ -1341,41 +1488,111 @@ def value_ops(t, f, VALUE):
                     if base and t.ref_decl(base[0]) in params:
                         return 'src'
                     if not base or t.is_this(base[0]):
-                        return 'old'
-                if sd.get('rec') == TS and (t.ref_decl(o) in params or (o.get('kind') == 'CallExpr' and t.sd(o).get('q') in ('std::move',))):
-                    return 'src'          # size_t(other)
+                        return ('cur',)
+                if sd.get('rec') == TS:
+                    w = ts_arg(o)
+                    if w == 'src':
+                        return 'src'          # size_t(other)
+                    if w == 'old':
+                        return ('cur',)
         if k == 'MemberExpr' and t.sd(e).get('q') == VALUE:
             base = t.kids(e)
             if base and t.ref_decl(base[0]) in params:
                 return 'src'
         return 'other'
 
+    def subst(v, callee, args, env):
+        """value computed in a callee, expressed in the caller"""
+        if isinstance(v, tuple) and v[0] == 'param':
+            return classify(args[v[1]], env) if v[1] < len(args) else 'other'
+        if v == 'src':
+            for p, a in zip(callee['params'], args):
+                if base_type(p['ct']) == TS:
+                    w = ts_arg(a)
+                    return 'src' if w == 'src' else ('cur',) if w == 'old' else 'other'
+            return 'other'
+        return v
+
     finals = []
     for path in cfg_paths(g):
-        cur = 'old'
+        curs = ['old']            # possible contents (several when a followed callee has several paths)
+        env = {}
+
+        def settle(v, curs):
+            return [c if v == ('cur',) else v for c in curs] if v == ('cur',) else [v]
+
         for blk, taken in path:
             for e in blk.el:
-                if e[0] == 'I' and e[3] == VALUE.split('::')[-1]:
+                if e[0] == 'I':
                     init = t.node(e[1])
-                    if init is not None and init.get('kind') == 'CXXDefaultInitExpr':
-                        fd = t.node(e[2])
-                        init = t.kids(fd)[-1] if fd is not None and t.kids(fd) else None
-                    cur = classify(init) if init is not None else 'other'
-                elif e[0] == 'S':
-                    x = t.node(e[1])
-                    if x is None or x.get('kind') not in CALLS:
+                    if e[3] == fname:
+                        if init is not None and init.get('kind') == 'CXXDefaultInitExpr':
+                            fd = t.node(e[2])
+                            init = t.kids(fd)[-1] if fd is not None and t.kids(fd) else None
+                        curs = settle(classify(init, env) if init is not None else 'other', curs)
                         continue
-                    sd, obj, args = t.call_parts(x)
-                    if obj is None or not this_value(obj):
-                        continue
-                    name = sd.get('q', '').split('::')[-1]
+                    i0 = t.strip(init) if init is not None else None
+                    if i0 is not None and i0.get('kind') == 'CXXConstructExpr' and t.sd(i0).get('rec') == TS:
+                        callee = t.callee_fn(i0)                     # delegating constructor
+                        if callee is None:
+                            und.append('delegating constructor without a visible body at %s' % t.loc(i0))
+                            continue
+                        sub, _o, u2 = value_ops(t, callee, VALUE, depth + 1)
+                        und += u2
+                        s_, o_, args = t.call_parts(i0)
+                        curs = list({repr(w): w for w in (subst(v, callee, args, env) for v in sub)}.values())
+                        curs = [c if c not in (('cur',), 'old') else 'other' for c in curs]   # nothing was initialised before
+                    continue
+                if e[0] != 'S':
+                    continue
+                x = t.node(e[1])
+                if x is None:
+                    continue
+                k = x.get('kind')
+                if k == 'DeclStmt':
+                    for v in t.kids(x):
+                        if v.get('kind') == 'VarDecl' and t.kids(v):
+                            c = classify(t.kids(v)[-1], env)
+                            if c == ('cur',):
+                                c = curs[0] if len(set(map(repr, curs))) == 1 else 'other'
+                            env[v['id']] = c
+                    continue
+                if k == 'BinaryOperator' and x.get('opcode') == '=':
+                    l = t.strip(t.kids(x)[0], casts=True)
+                    if l is not None and l.get('kind') == 'DeclRefExpr' and l.get('referencedDecl', {}).get('id') in env:
+                        c = classify(t.kids(x)[1], env)
+                        env[l['referencedDecl']['id']] = 'other' if c == ('cur',) else c
+                    continue
+                if k not in CALLS:
+                    continue
+                sd, obj, args = t.call_parts(x)
+                name = sd.get('q', '').split('::')[-1]
+                if obj is not None and this_value(obj):
                     if name in ('operator=', 'store') and args:
-                        cur = classify(args[0])
+                        curs = settle(classify(args[0], env), curs)
                     elif name == 'load' or name.startswith('operator '):
                         pass
                     else:
                         und.append('operation %s on the stamp value at %s' % (name, t.loc(x)))
-        finals.append(cur)
+                    continue
+                callee = t.callee_fn(x)
+                if callee is not None and callee.get('rec') == TS and callee['q'] != NEXT and not callee.get('static') \
+                        and obj is not None and is_this_obj(obj):
+                    if callee['id'] == f['id']:
+                        und.append('recursive TimeStamp member')
+                        continue
+                    sub, _o, u2 = value_ops(t, callee, VALUE, depth + 1)
+                    und += u2
+                    nxt = {}
+                    for v in sub:
+                        w = subst(v, callee, args, env)
+                        for c in (curs if w in ('old', ('cur',)) else [w]):
+                            nxt[repr(c)] = c
+                    curs = list(nxt.values())
+                elif sd.get('rec') == TS and obj is not None and is_this_obj(obj) and callee is None and \
+                        not (name.startswith('operator ') and not name.startswith('operator=')):
+                    und.append('call of %s on *this without a visible body at %s' % (sd.get('q'), t.loc(x)))
+        finals += curs
     return finals, [], sorted(set(und))
 
 
@@ -1445,7 +1662,7 @@ def run(ctx):
         ctx.undecided('R-C19-1', 'Observer/Observable', F.why, HDR_O)
     else:
         analysed = set()
-        n1, n2, n4a = check_observer(ctx, tu, F, analysed)
+        n1, n2, n4a = check_observer(ctx, tu, F, analysed, [tu_src] + list(lib_tus))
         n1 += check_observable(ctx, tu, F, analysed)
         n4 = check_special(ctx, tu, F, analysed)
         n5 = check_coverage(ctx, tu, F, analysed, [tu_src] + list(lib_tus))
